@@ -387,6 +387,7 @@ type LoopSpec struct {
 	Decreases  *Clause
 	Opts       map[string]string
 	Uses       []*Clause
+	BackUses   []*Clause // use at back: instantiated in the back-edge state, iter() = iteration start
 }
 
 type AssertSpec struct {
@@ -418,6 +419,7 @@ type Lemma struct {
 	Line     string
 	Pats     []*Expr
 	Uses     []*Clause
+	Opts     map[string]string // opt lines inside the lemma block (axiomatize=...)
 }
 
 type FuncSpec struct {
@@ -440,6 +442,7 @@ type FuncSpec struct {
 	Pure     bool
 	Decreases *Clause
 	Uses     []*Clause
+	ExitUses   []*Clause // use at exit
 	Splits   []*Clause // case split of every obligation (cases must cover: checked)
 }
 
@@ -799,6 +802,23 @@ func LoadSpecFile(path, pkg string) (sf *SpecFile, err error) {
 			c := must(mkClause("assert", r[i+1:], l.pos))
 			cur.Asserts = append(cur.Asserts, &AssertSpec{At: at, C: c})
 		case "use":
+			if strings.HasPrefix(l.rest, "at exit ") {
+				// use at exit lemma(args): instantiated in the state of every return
+				if cur == nil || curLoop != nil || curLemma != nil {
+					panic(l.pos + ": 'use at exit' belongs to a func block")
+				}
+				c := must(mkClause("use", strings.TrimPrefix(l.rest, "at exit "), l.pos))
+				cur.ExitUses = append(cur.ExitUses, c)
+				break
+			}
+			if strings.HasPrefix(l.rest, "at back ") {
+				if curLoop == nil {
+					panic(l.pos + ": 'use at back' belongs to a loop block")
+				}
+				c := must(mkClause("use", strings.TrimPrefix(l.rest, "at back "), l.pos))
+				curLoop.BackUses = append(curLoop.BackUses, c)
+				break
+			}
 			c := must(mkClause("use", l.rest, l.pos))
 			if curLemma != nil {
 				curLemma.Uses = append(curLemma.Uses, c)
@@ -824,7 +844,12 @@ func LoadSpecFile(path, pkg string) (sf *SpecFile, err error) {
 			if len(kv) == 2 {
 				v = strings.TrimSpace(kv[1])
 			}
-			if curLoop != nil {
+			if curLemma != nil {
+				if curLemma.Opts == nil {
+					curLemma.Opts = map[string]string{}
+				}
+				curLemma.Opts[strings.TrimSpace(kv[0])] = v
+			} else if curLoop != nil {
 				curLoop.Opts[strings.TrimSpace(kv[0])] = v
 			} else {
 				cur.Opts[strings.TrimSpace(kv[0])] = v
